@@ -156,10 +156,9 @@ func detHistory(c *Ctx, t *detTarget, src, dst protoreflect.Message) ([]string, 
 					dels = append(dels, delOp(fd, k))
 				}
 				for _, k := range keys {
-					if nv.Map().Has(k) || c.Intn(4) == 0 {
-						if nv.Map().Has(k) {
-							th.steps = append(th.steps, putOp(fd, k, nv.Map().Get(k)))
-						}
+					if nv.Map().Has(k) {
+						// a first value that is overwritten
+						th.steps = append(th.steps, putOp(fd, k, nv.Map().Get(k)))
 					}
 					th.steps = append(th.steps, putOp(fd, k, src.Get(k)))
 					if len(dels) > 0 && c.Intn(2) == 0 {
@@ -534,8 +533,8 @@ func famDet(c *Ctx) {
 				n++
 			}
 		}
-		if n >= 3 || len(msgExtensionsOf(t.md)) >= 8 {
-			heavy = append(heavy, t)
+		if n >= 3 || len(msgExtensionsOf(t.md)) >= 8 || (msgHasLazy(t.md) && fds.Len() > 0 && c.Intn(4) == 0) {
+			heavy = append(heavy, t) // maps, many extensions, lazily decoded fields (Deterministic forces the decode)
 		}
 	}
 	c.StatN("map_heavy_types", len(heavy))
